@@ -48,7 +48,15 @@ lines, identifiers that are keywords in another letter case, runs of blank lines
 names with double underscores, an explicit label_fname, one-line blocks inside short-if lines, a selector after a .lua name,
 PNG ancillary chunks, the type of the exception a writer raises, cart versions above 33, carts loaded from a stream without a
 file name, the newer (pxa) code compression, which of two matching files a load path picks, byte runs that look like UTF-8,
-addresses beyond 16 bits, leftover *_fmt files, buffers without padding, hex numerals directly followed by `..`.
+addresses beyond 16 bits, leftover *_fmt files, buffers without padding, hex numerals directly followed by `..`, the `\\z`
+string escape, blanks inside `:: label ::`, the `?` print shorthand treated as a name, the 26th generated short name, keep-file
+names next to reserved candidates, the level of a long bracket, a code object made for another cart version, a .p8 file without
+`__lua__` section / a cart without any code, streams that end exactly at the edge of the code area, 7-bit keys for 8-bit
+characters, luafmt/luamin options on .p8.png carts, a destination given as a bare file name, the locale's text encoding, regular
+expression metacharacters in directory names, folders that look like the PICO-8 carts folder, `f{...}` calls in build sources,
+the glyphs 16-31 and 127, a custom load path falling back to the default patterns, a main program ending in `return`, lines of
+the form `__<glyphs>__`, bytearray / memoryview arguments, the label image treated as a memory section, tabs inside header
+comments, #include of a cart without code.
 Look for something else, for example: a mask, shift or bit position that is off by one; signed/unsigned or 7-bit/8-bit handling;
 an inclusive/exclusive range end; integer division or rounding; the order in which two sections / options / passes are applied;
 an interaction between two command-line options or two library features that are each fine alone; a module-level table or
